@@ -555,10 +555,7 @@ Print Assumptions C13_get_cables.
 Theorem C13_get_cables_all_candidates : forall s, QWF s -> forall rec fuel root ps os,
   cands_cables s fuel [root] rec SAll = WOk (ps, os) ->
   (forall d, In d ps <-> lead_defs s root d) /\ NoDup os /\ forall c, In c os <-> cables_all s root c.
-Proof.
-  exact (fun s W rec fuel root ps os E =>
-           conj (cands_cables_all_parents s W rec fuel root ps os E) (cands_cables_all_exact s W rec fuel root ps os E)).
-Qed.
+Proof. exact cands_cables_all_candidates. Qed.
 Print Assumptions C13_get_cables_all_candidates.
 
 Theorem C13_get_cables_all : forall s, QWF s -> forall o fuel root rec pats res,
